@@ -159,7 +159,10 @@ class SdfTransformer(Transformer):
     @staticmethod
     def start(args):
         name = next((a for a in args if isinstance(a, str)), None)
-        cells = dict(t for t in args if isinstance(t, tuple))
+        cells = dict()
+        for t in args:
+            if isinstance(t, tuple):  # the same instance may appear in several CELL blocks, keep all entries in file order.
+                cells.setdefault(t[0], []).extend(t[1])
         return DelayFile(name, cells)
 
 
